@@ -1086,6 +1086,7 @@ class Pool:
         self._pool = []
         self._poolctrl = {}
         self._on_ready_counters = {}
+        self._reaped = {}
         self.putlocks = putlocks
         self._putlock = semaphore or LaxBoundedSemaphore(self._processes)
         for i in range(self._processes):
@@ -1264,6 +1265,12 @@ class Pool:
                 del self._poolctrl[worker.pid]
                 del self._on_ready_counters[worker.pid]
         if cleaned:
+            # (remembered: the result handler may consume a job's ACK only
+            # after the worker that sent it has been reaped.)
+            reaped = self._reaped
+            reaped.update(cleaned)
+            while len(reaped) > 4 * self._processes + 64:
+                del reaped[next(iter(reaped))]
             all_pids = [w.pid for w in self._pool]
             for job in list(self._cache.values()):
                 acked_by_gone = next(
@@ -1275,16 +1282,7 @@ class Pool:
                 if acked_by_gone:
                     self.on_job_process_down(job, acked_by_gone)
                     if not job.ready():
-                        exitcode = exitcodes.get(acked_by_gone) or 0
-                        proc = cleaned.get(acked_by_gone)
-                        if proc and getattr(proc, '_job_terminated', False):
-                            job._set_terminated(exitcode, all_pids)
-                        elif not job._worker_lost:
-                            # (a loss already noticed keeps its time
-                            # and exit status)
-                            self.on_job_process_lost(
-                                job, acked_by_gone, exitcode,
-                            )
+                        self._on_job_worker_gone(job, acked_by_gone, all_pids)
                 else:
                     # started writing to
                     write_to = job._write_to
@@ -1302,7 +1300,28 @@ class Pool:
                         self._process_cleanup_queues(worker)
                     self.on_process_down(worker)
             return list(exitcodes.values())
+        if self._reaped:
+            # nobody exited now, but the ACK of a worker reaped earlier may
+            # have been consumed since: that job's loss is noticed here.
+            all_pids = [w.pid for w in self._pool]
+            for job in list(self._cache.values()):
+                if not job.ready():
+                    acked_by_gone = next(
+                        (pid for pid in job.worker_pids()
+                         if pid not in all_pids), None)
+                    if acked_by_gone:
+                        self._on_job_worker_gone(job, acked_by_gone, all_pids)
         return []
+
+    def _on_job_worker_gone(self, job, pid, all_pids):
+        # `job` is unfinished and was accepted by worker `pid`, which is gone.
+        proc = self._reaped.get(pid)
+        exitcode = (proc.exitcode if proc is not None else None) or 0
+        if proc is not None and getattr(proc, '_job_terminated', False):
+            job._set_terminated(exitcode, all_pids)
+        elif not job._worker_lost:
+            # (a loss already noticed keeps its time and exit status)
+            self.on_job_process_lost(job, pid, exitcode)
 
     def on_partial_read(self, job, worker):
         pass
